@@ -54,6 +54,10 @@ int main(int argc, char **argv)
       else if (!strcmp(kind, "nodir")) path = "nodir/out.cfg";
       else if (!strcmp(kind, "isdir")) path = "adir";
       else if (!strcmp(kind, "readonly")) path = geteuid() == 0 ? "nodir2/x/out.cfg" : "rodir/out.cfg";
+      else if (!strcmp(kind, "existing")) {
+        /* the target exists already and is longer than the new contents: on success the file is exactly the new contents */
+        FILE *f = fopen("out.cfg", "wb"); size_t i; for (i = 0; i < memlen + 64 + (size_t)param; i++) fputc('Z', f); __real_fclose(f);
+      }
       else if (!strcmp(kind, "fsyncfail")) fail_fsync = 1;
       else if (!strcmp(kind, "fclosefail")) fail_fclose = 1;
       ret = config_write_file(&cfg, path);
